@@ -20,7 +20,7 @@ COUNTS = {'quick': 360, 'thorough': 12000}
 BUDGET = {'quick': 110, 'thorough': 1500}
 TIMEOUT = 150
 SHRINK_LISTS = [['events'], ['faults'], ['segments_cut']]
-EXPECTED_PROBES = ['event_enabled_after_init', 'enabled_after_init_fired', 'event_disabled_after_init', 'event_fired', 'resumed', 'step_rejected', 'coincident_events', 'event_at_boundary',
+EXPECTED_PROBES = ['line_effect_checked', 'line_switched_in_after_offline_at_load', 'event_enabled_after_init', 'enabled_after_init_fired', 'event_disabled_after_init', 'event_fired', 'resumed', 'step_rejected', 'coincident_events', 'event_at_boundary',
                    'disabled_event', 'variable_step']
 RULE = ('plan = seeded (stock case, knobs+channels, event devices from 14 time classes, resume boundaries, forced '
         'rejections); non-trivial = at least one event fired; distinct = coverage signature (sorted multiset of '
@@ -79,6 +79,15 @@ def _finish(plan, ss_probe):
         return list(mdl.idx.v) if mdl is not None else []
     evs, classes = gen.draw_events(stream(seed, 'events'), case, plan['tf'], plan['knobs']['TDS.tstep'],
                                    plan['segments_cut'], idx_of=idx_of)
+    ol = stream(seed, 'offline')
+    lines = idx_of('Line')
+    if lines and ol.random() < 0.3:
+        # a line that the case brings out of service is switched in by an event of the plan
+        dev = ol.choice(lines)
+        plan['offline_at_load'] = [['Line', dev]]
+        t = round(ol.uniform(0.1, plan['tf'] - 0.05), ol.choice([1, 2, 4]))
+        evs.append({'model': 'Toggle', 'params': {'model': 'Line', 'dev': dev, 't': t, 'u': 1, 'idx': 'DST_On_0'}})
+        classes.append('switch_in')
     plan['events'] = [_jsonable(e) for e in evs]
     plan['_classes'] = classes
     fr = stream(seed, 'faults.solver')
@@ -153,6 +162,13 @@ def execute(plan):
         res['sim_seconds'] = tdssim.t_reached(hist)
         res['steps'] = hist['n_attempts']
         res['digest'] = tdssim.digest_of(hist, ss)
+        # after the digest (re-evaluates the equations at the final state): statuses are what the network equations see
+        if tdssim.run_ok(hist):
+            le, n_le = tdssim.o_line_effect(ss)
+            v += le
+            res['probes']['line_effect_checked'] = n_le
+            res['probes']['line_switched_in_after_offline_at_load'] = int(bool(plan.get('offline_at_load')) and any(
+                r['model'] == 'Toggle' and r['idx'] == 'DST_On_0' for r in fired))
     finally:
         tdssim.cleanup(hist)
     return res
